@@ -4141,7 +4141,8 @@ class ControlConnection(object):
                 peers_query = QueryMessage(query=select_peers_query, consistency_level=cl)
                 local_query = QueryMessage(query=self._SELECT_SCHEMA_LOCAL, consistency_level=cl)
                 try:
-                    timeout = min(self._timeout, total_timeout - elapsed)
+                    # control_connection_timeout may be None (no timeout for control queries)
+                    timeout = total_timeout - elapsed if self._timeout is None else min(self._timeout, total_timeout - elapsed)
                     peers_result, local_result = connection.wait_for_responses(
                         peers_query, local_query, timeout=timeout)
                 except OperationTimedOut as timeout:
